@@ -9,6 +9,7 @@ after `n` calls of `next()`; `rawL` / `restL` / `dataL` are the bytes of the raw
 remainder (`buffered()`) and of the data span.
 -/
 import RioModel.Proofs.HtmlNext
+import RioModel.Proofs.HtmlStream7
 
 namespace Rio.C16
 open Rio.Html Rio.Html.Tokenizer
@@ -226,6 +227,74 @@ example : (nexts 1 (Tokenizer.new #[60, 97, 62, 98])).token = .startTag ∧
 
 /-- `tag_name_some` is not vacuous: `<A b=c>` is a start tag named `a` with one attribute. -/
 example : (tagName (next (Tokenizer.new #[60, 65, 32, 98, 61, 99, 62]))).1 matches .ok (some [97], true) := by
+  decide +kernel
+
+/-! ### the raw-text context (`raw_tag()`, `new_fragment`; read by the html filter since fe7eac6) -/
+
+/-- **`new_fragment`** keeps its (lower-cased) context tag iff it is one of the ten raw-text element names
+`read_start_tag` can store (both tables regenerated from the source); any other name — and "" — gives no context. -/
+theorem new_fragment_context (bytes : Array Nat) (ctx : List Nat) :
+    (Tokenizer.newFragment bytes ctx).rawTag = if ctx ∈ Rio.Consts.htmlFragmentRawTags then ctx else [] :=
+  newFragment_rawTag bytes ctx
+
+/-- the two tables agree: `new_fragment` accepts exactly the names `read_start_tag` can set -/
+theorem context_tables_agree (s : List Nat) :
+    s ∈ Rio.Consts.htmlFragmentRawTags ↔ s ∈ Rio.Consts.htmlRawDispatch.flatMap (·.2) :=
+  ⟨fragment_sub_rawNames s, rawNames_sub_fragment s⟩
+
+/-- **`raw_tag()` after `next()`**: "" ; or a raw-text element name, and then the token is a (self-closing) start tag
+that did not hit the end of the data; or unchanged, which happens only once `err` is set or in the `plaintext` context. -/
+theorem raw_tag_after_next (t : Tokenizer) (h : Inv t) :
+    (next t).rawTag = [] ∨
+    ((next t).rawTag ∈ Rio.Consts.htmlFragmentRawTags ∧ ((next t).token = .startTag ∨ (next t).token = .selfClosing) ∧
+      (next t).err = false) ∨
+    ((next t).rawTag = t.rawTag ∧ (t.err = true ∨ t.rawTag = Rio.Consts.htmlPlaintext)) :=
+  next_ctx t h
+
+/-- `raw_tag()` is always "" or one of the ten names, from `new` / `new_fragment` on, for every input -/
+theorem raw_tag_is_context (bytes : Array Nat) (ctx : List Nat) (n : Nat) :
+    RawCtx (nexts n (Tokenizer.newFragment bytes ctx)).rawTag :=
+  nexts_rawCtx n _ (newFragment_inv bytes ctx) (newFragment_rawCtx bytes ctx)
+
+/-- **RESTART in any context**: at a token boundary where `err()` is unset, the tokenizer continues exactly like
+`new_fragment(unread bytes, raw_tag())` (positions shifted by `raw.end`): same token types, spans, `err`, `raw_tag`. -/
+theorem restart_in_context (bytes : Array Nat) (ctx : List Nat) (k n : Nat) (hn : 0 < n)
+    (herr : (nexts k (Tokenizer.newFragment bytes ctx)).err = false) :
+    CoreT True (nexts k (Tokenizer.newFragment bytes ctx)).rawE
+      (nexts n (nexts k (Tokenizer.newFragment bytes ctx)))
+      (nexts n (restartCtx (nexts k (Tokenizer.newFragment bytes ctx)))) :=
+  nexts_restart_ctx n _ (nexts_inv k _ (newFragment_inv bytes ctx)) herr (raw_tag_is_context bytes ctx k) hn
+
+/-- **a call of `next()` that sets `err` ends at the end of the data** (so `raw() ++ buffered()` of a cut token is the
+unread suffix that starts at the token's first byte), and tag tokens are never cut. -/
+theorem cut_token_ends_at_eof (bytes : Array Nat) (ctx : List Nat) (k : Nat)
+    (herr : (nexts (k + 1) (Tokenizer.newFragment bytes ctx)).err = true) :
+    (nexts (k + 1) (Tokenizer.newFragment bytes ctx)).rawE = bytes.size ∧
+    isTagLike (nexts (k + 1) (Tokenizer.newFragment bytes ctx)).token = false := by
+  have inv := nexts_inv k _ (newFragment_inv bytes ctx)
+  have eg : ErrGe (nexts k (Tokenizer.newFragment bytes ctx)) :=
+    nexts_errGe k _ (fun h => by rw [(newFragment_fields bytes ctx).2.2.2.1] at h; cases h)
+  refine ⟨?_, ?_⟩
+  · have h1 : (nexts (k + 1) (Tokenizer.newFragment bytes ctx)).rawE =
+        (nexts (k + 1) (Tokenizer.newFragment bytes ctx)).buf.size := next_cut_end _ inv eg herr
+    rw [Tokenizer.nexts_buf (k + 1) _ (newFragment_inv bytes ctx), (newFragment_fields bytes ctx).1] at h1
+    exact h1
+  · cases hk : isTagLike (nexts (k + 1) (Tokenizer.newFragment bytes ctx)).token with
+    | false => rfl
+    | true =>
+      have := next_tag_not_cut _ inv hk
+      rw [show next (nexts k (Tokenizer.newFragment bytes ctx)) = nexts (k + 1) (Tokenizer.newFragment bytes ctx) from rfl,
+        herr] at this
+      cases this
+
+/-- not vacuous: in the context `title` the bytes `a<b></title>x` are one text token up to the end tag, then the context
+is left; in no context `<b>` is a tag -/
+example :
+    (nexts 1 (Tokenizer.newFragment #[97, 60, 98, 62, 60, 47, 116, 105, 116, 108, 101, 62, 120] [116, 105, 116, 108, 101])).token = .text ∧
+    rawL (nexts 1 (Tokenizer.newFragment #[97, 60, 98, 62, 60, 47, 116, 105, 116, 108, 101, 62, 120] [116, 105, 116, 108, 101])) = [97, 60, 98, 62] ∧
+    (nexts 1 (Tokenizer.newFragment #[97, 60, 98, 62, 60, 47, 116, 105, 116, 108, 101, 62, 120] [116, 105, 116, 108, 101])).rawTag = [] ∧
+    (nexts 2 (Tokenizer.newFragment #[97, 60, 98, 62, 60, 47, 116, 105, 116, 108, 101, 62, 120] [116, 105, 116, 108, 101])).token = .endTag ∧
+    rawL (nexts 2 (Tokenizer.newFragment #[97, 60, 98, 62] [])) = [60, 98, 62] := by
   decide +kernel
 
 end Rio.C16
